@@ -4,11 +4,19 @@ package authorize_sender
 // the case generator, header renderer, op-line codec, reference entitlement function and
 // monitor live in internal/verifshim/vc15.
 //
-// Per case: build the real Check (Init with the real configuration directives for the
-// normalisers / actions, the tables assigned directly), parse the rendered header bytes with
-// go-message textproto, run CheckSender and CheckBody on a fresh state, write the
-// correspondence line (the Lean model decides on the shipped library results) and let the
-// monitor judge the real decision.
+// Per case: build the real Check SEVERAL times through the real configuration path — the
+// configuration block is written as text (directives that have their default left out in every
+// combination, the others in any order, tables as `static { … }` / `file <path>` / `identity` /
+// `email_localpart` / a registered in-memory module), read by the server's configuration parser
+// and given to Init —, parse the rendered header bytes with go-message textproto, run CheckSender
+// and CheckBody on a fresh state of every instance, write the correspondence line (the Lean model
+// decides on the shipped library results), let the monitor judge every real decision and demand
+// that the instances of the one configuration agree.
+//
+// TestVerifC15AFile: histories of a `user_to_email file …` table (real table.file) under a
+// running check: edits of the file and reloads through the reload hook; after every reload the
+// table's content (against the Lean model of the history) and the decisions (against the model
+// and, by the monitor, against the CURRENT content of the file).
 
 import (
 	"bufio"
@@ -20,32 +28,50 @@ import (
 	"go/parser"
 	"go/printer"
 	"go/token"
+	"os"
+	"sort"
 	"strconv"
 	"strings"
 	"testing"
+	"time"
 
 	"github.com/emersion/go-message/textproto"
 	"github.com/foxcpp/maddy/framework/config"
 	"github.com/foxcpp/maddy/framework/exterrors"
+	"github.com/foxcpp/maddy/framework/hooks"
 	"github.com/foxcpp/maddy/framework/log"
 	"github.com/foxcpp/maddy/framework/module"
+	"github.com/foxcpp/maddy/internal/table"
 	"github.com/foxcpp/maddy/internal/verifshim/vc15"
 	"github.com/foxcpp/maddy/internal/verifshim/vh"
 )
 
-func c15NewCheck(cs *vc15.Case) *Check {
+// c15NewCheck: one more instance of the check for the configuration of the case, built the way
+// the server builds it: configuration text -> parser -> config.Map -> Init.
+func c15NewCheck(block config.Node) *Check {
 	mod, err := New(modName, "c15", nil, nil)
 	if err != nil {
 		panic(err)
 	}
 	c := mod.(*Check)
-	if err := c.Init(config.NewMap(map[string]interface{}{}, config.Node{Children: cs.ConfigNodes()})); err != nil {
+	if err := c.Init(config.NewMap(map[string]interface{}{}, block)); err != nil {
 		panic(fmt.Sprintf("Init: %v", err))
 	}
 	c.log = log.Logger{Out: log.NopOutput{}}
-	c.emailPrepare = cs.Prep.Build()
-	c.userToEmail = cs.U2E.Build()
 	return c
+}
+
+// c15FilesClosed counts the file tables whose reloader was stopped: their reload hooks stay
+// registered and would block for ever, so the reload hook must not be run any more.
+var c15FilesClosed int
+
+func c15CloseTables(c *Check) {
+	for _, t := range []module.Table{c.userToEmail, c.emailPrepare} {
+		if f, ok := t.(*table.File); ok {
+			f.Close()
+			c15FilesClosed++
+		}
+	}
 }
 
 // names of the refusals, by the message text of the SMTPError literal
@@ -220,17 +246,17 @@ func c15Facts(out *vh.Out) {
 	out.Corr("C15 fact entcond", vh.HexRunes(strings.Join(conds, " ;; ")))
 }
 
-func c15Exec(cs *vc15.Case) (vc15.Run, error) {
-	c := c15NewCheck(cs)
+func c15ReadHeader(cs *vc15.Case) (textproto.Header, error) {
+	return textproto.ReadHeader(bufio.NewReader(bytes.NewReader(append(append([]byte{}, cs.Raw...), '\r', '\n'))))
+}
+
+// c15Exec: one message through one instance of the check.
+func c15Exec(c *Check, cs *vc15.Case, hdr textproto.Header) vc15.Run {
 	meta := &module.MsgMetadata{ID: "c15"}
 	if cs.Conn {
 		meta.Conn = &module.ConnState{AuthUser: cs.User}
 	}
 	var r vc15.Run
-	hdr, err := textproto.ReadHeader(bufio.NewReader(bytes.NewReader(append(append([]byte{}, cs.Raw...), '\r', '\n'))))
-	if err != nil {
-		return r, err
-	}
 	r.FromVals = hdr.Values("From")
 	r.SenderVals = hdr.Values("Sender")
 
@@ -242,12 +268,53 @@ func c15Exec(cs *vc15.Case) (vc15.Run, error) {
 	r.Sender = c15Stage(st.CheckSender(ctx, cs.MailFrom))
 	r.Body = c15Stage(st.CheckBody(ctx, hdr, nil))
 	st.Close()
-	return r, nil
+	return r
+}
+
+func c15Obs(r *vc15.Run) string { return r.Sender.String() + " " + r.Body.String() }
+
+// c15Instances: how many instances of the check are built from the one configuration of a case.
+var c15Replaying = vh.Replay() != nil
+
+func c15Instances() int {
+	if c15Replaying {
+		return 16
+	}
+	return 2
+}
+
+// c15Judge: correspondence line for the first instance, monitor on every distinct decision, and
+// the instances must agree.  `ref` is the case the model is asked about, `cur` the case the
+// monitor judges by (they differ only in the history harness).
+func c15Judge(out *vh.Out, ref, cur *vc15.Case, runs []vc15.Run, vop string) {
+	op := vc15.OpLine(ref, &runs[0])
+	if vop == "" {
+		vop = op
+	}
+	out.Corr(op, c15Obs(&runs[0]))
+	seen := map[string]bool{}
+	for i := range runs {
+		o := c15Obs(&runs[i])
+		if seen[o] {
+			continue
+		}
+		seen[o] = true
+		if cur != nil {
+			vc15.Monitor(out, cur, &runs[i], vop)
+		}
+	}
+	if len(seen) > 1 {
+		var all []string
+		for o := range seen {
+			all = append(all, o)
+		}
+		sort.Strings(all)
+		out.Violation("C15/instances-of-one-configuration-disagree", vop, strings.Join(all, " <> "))
+	}
+	out.Stat(fmt.Sprintf("instances.distinct-decisions.%d", len(seen)))
 }
 
 func c15Do(out *vh.Out, cs *vc15.Case) {
-	var r vc15.Run
-	var err error
 	panicked := false
 	func() {
 		defer func() {
@@ -256,26 +323,219 @@ func c15Do(out *vh.Out, cs *vc15.Case) {
 				out.Violation("C15/panic", vc15.SessionOpLine(cs), fmt.Sprint(p))
 			}
 		}()
-		r, err = c15Exec(cs)
+		hdr, err := c15ReadHeader(cs)
+		if err != nil {
+			out.Stat("skip.header-unreadable")
+			return
+		}
+		cleanup := cs.Materialize()
+		defer cleanup()
+		block, _, how := cs.ConfigBlock()
+		defer cs.ReleaseMem()
+		out.Stat("cfg.built-from." + how)
+		var runs []vc15.Run
+		for i, n := 0, c15Instances(); i < n; i++ {
+			c := c15NewCheck(block)
+			func() {
+				defer c15CloseTables(c)
+				runs = append(runs, c15Exec(c, cs, hdr))
+			}()
+		}
+		c15Judge(out, cs, cs, runs, "")
+		r := &runs[0]
+		out.Stat("sender." + r.Sender.Reason)
+		out.Stat("body." + r.Body.Reason)
+		vc15.Distribution(out, cs, r)
 	}()
-	if panicked {
+	_ = panicked
+}
+
+// ---------------------------------------------------------------- histories of a table file
+
+// c15Reload runs the server's reload hook (what SIGUSR2 does) twice: every file table's hook
+// hands a request to the table's reloader goroutine and returns when it was TAKEN; the second
+// request can only be taken when the first reload is finished.  So after the second round every
+// table has completed a reload that started after the last edit of its file.  (The reload the
+// second request starts may still run: the files are replaced atomically, it can only load what
+// the first one loaded.)
+//
+// A hook that is never taken (the reloader goroutine of a table is gone) would block for ever:
+// the rounds run beside a generous guard; false = the hook did not come back.
+func c15Reload() bool {
+	if c15FilesClosed > 0 {
+		panic("c15: the reload hook cannot be run after file tables were closed")
+	}
+	done := make(chan struct{})
+	go func() {
+		hooks.RunHooks(hooks.EventReload)
+		hooks.RunHooks(hooks.EventReload)
+		close(done)
+	}()
+	select {
+	case <-done:
+		return true
+	case <-time.After(60 * time.Second):
+		return false
+	}
+}
+
+// c15HookStuck: the reload hook hangs; no further history can be run in this process.
+var c15HookStuck bool
+
+func c15History(out *vh.Out, h *vc15.History, final *vc15.Probe) {
+	base := h.Base
+	cleanup := base.Materialize()
+	defer cleanup()
+	path := base.U2E.Path
+	if !h.Present {
+		os.Remove(path)
+	}
+	// two instances of the check, each with its own table.file on the one file; never closed
+	// (their reload hooks would block), the file is removed at the end
+	block, _, _ := base.ConfigBlock()
+	defer base.ReleaseMem()
+	var checks []*Check
+	for i := 0; i < 2; i++ {
+		c := c15NewCheck(block)
+		if _, ok := c.userToEmail.(*table.File); !ok {
+			panic("c15: user_to_email is not a file table")
+		}
+		checks = append(checks, c)
+	}
+	// what the harness expects: the file (cur / exists / bad) and, by the rules of the model, the
+	// loaded entries
+	cur := base.U2E.Lines
+	exists, bad := h.Present, false
+	var loaded []vc15.Line
+	if exists {
+		loaded = cur
+	}
+	probe := func(upto int, p vc15.Probe) {
+		ref := h.ProbeCase(p, loaded)
+		hdr, err := c15ReadHeader(ref)
+		if err != nil {
+			out.Stat("skip.header-unreadable")
+			return
+		}
+		var runs []vc15.Run
+		panicked := false
+		func() {
+			defer func() {
+				if x := recover(); x != nil {
+					panicked = true
+					out.Violation("C15/panic", h.OpLine(upto, &p), fmt.Sprint(x))
+				}
+			}()
+			for _, c := range checks {
+				runs = append(runs, c15Exec(c, ref, hdr))
+			}
+		}()
+		if panicked {
+			return
+		}
+		var now *vc15.Case
+		switch {
+		case bad:
+			// a damaged file has no content to judge by
+			out.Stat("file.probe.file-unparsable")
+		case !exists:
+			now = h.ProbeCase(p, nil)
+			out.Stat("file.probe.file-absent")
+		default:
+			now = h.ProbeCase(p, cur)
+			out.Stat(fmt.Sprintf("file.probe.entry-lines.%d", min(len(cur), 3)))
+		}
+		c15Judge(out, ref, now, runs, h.OpLine(upto, &p))
+		out.Stat("file.probe.sender." + runs[0].Sender.Reason)
+	}
+	dump := func(upto int) {
+		keys := h.HistoryKeys(upto)
+		d0 := vc15.DumpTable(checks[0].userToEmail.(module.MultiTable), keys)
+		out.Corr(h.OpLine(upto, nil), d0)
+		if d1 := vc15.DumpTable(checks[1].userToEmail.(module.MultiTable), keys); d1 != d0 {
+			out.Violation("C15/instances-of-one-configuration-disagree", h.OpLine(upto, nil), "table content "+d0+" <> "+d1)
+		}
+	}
+	dump(-1)
+	probe(-1, vc15.Probe{Base: true})
+	for i, st := range h.Steps {
+		out.Stat("file.step." + st.Op)
+		switch st.Op {
+		case "W":
+			vc15.WriteFileAtomically(path, vc15.RenderFile(st.Lines, st.Style))
+			cur, exists, bad = st.Lines, true, false
+			if len(st.Lines) == 0 {
+				out.Stat(fmt.Sprintf("file.emptied.style-%d", st.Style%3))
+			}
+		case "B":
+			vc15.WriteFileAtomically(path, vc15.BadFile)
+			exists, bad = true, true
+		case "D":
+			os.Remove(path)
+			exists, bad = false, false
+		case "R":
+			if !c15Reload() {
+				c15HookStuck = true
+				out.Violation("C15/reload-hook-does-not-return", h.OpLine(i, nil), "the reload hook of a file table was not taken by its reloader within 60 s")
+				return
+			}
+			switch {
+			case !exists:
+				loaded = nil
+			case !bad:
+				loaded = cur
+			}
+			dump(i)
+			for _, p := range st.Probes {
+				probe(i, p)
+			}
+		}
+	}
+	if final != nil {
+		probe(len(h.Steps)-1, *final)
+	}
+	os.Remove(path)
+}
+
+// TestVerifC15AFile must run before TestVerifC15 (which stops the reloaders of its file tables).
+func TestVerifC15AFile(t *testing.T) {
+	out := vh.Open("c15file")
+	defer out.Close()
+	log.DefaultLogger.Out = nil // table.file reports every unreadable / missing file
+	vc15.SmallEnvironment()
+	defer vc15.RemoveTempDir()
+	if ops := vh.Replay(); ops != nil {
+		for _, op := range ops {
+			if !strings.HasPrefix(op, "C15 file ") {
+				continue
+			}
+			h, q, err := vc15.ParseHistory(op)
+			if err != nil {
+				out.Note("unparsable replay op: " + err.Error())
+				continue
+			}
+			if !c15HookStuck {
+				c15History(out, h, q)
+			}
+		}
 		return
 	}
-	if err != nil {
-		out.Stat("skip.header-unreadable")
-		return
+	r := vh.NewRng(vh.Seed() + 151515)
+	n := 30 + vh.N(5000)/150
+	if n > 400 {
+		n = 400
 	}
-	op := vc15.OpLine(cs, &r)
-	out.Corr(op, r.Sender.String()+" "+r.Body.String())
-	vc15.Monitor(out, cs, &r, op)
-	out.Stat("sender." + r.Sender.Reason)
-	out.Stat("body." + r.Body.Reason)
-	vc15.Distribution(out, cs, &r)
+	for i := 0; i < n && !c15HookStuck; i++ {
+		c15History(out, vc15.GenHistory(r.Fork()), nil)
+	}
 }
 
 func TestVerifC15(t *testing.T) {
 	out := vh.Open("c15")
 	defer out.Close()
+	defer vc15.RemoveTempDir()
+	log.DefaultLogger.Out = nil
+	vc15.SmallEnvironment()
 	if ops := vh.Replay(); ops != nil {
 		for _, op := range ops {
 			if !strings.HasPrefix(op, "C15 run ") {
